@@ -43,6 +43,7 @@ pub const KINDS: &[&str] = &[
     "name-flood",
     "clock-warp",
     "entry-pure",
+    "stdio-full",
     "thread-churn",
     "cache-pressure",
     "error-storm",
@@ -160,13 +161,16 @@ fn plan_sweep(p: &SessionParams, pool: &Pool) -> (Plan, SessionMeta) {
         });
     }
     let own = plan.reqs.len();
+    // every fourth item again on a worker, alternately under counting keys and under the
+    // degenerate hasher (every value collides: what a `Hash` that disagrees with `Eq` cannot hide behind)
     for ri in 0..own {
-        if ri % 8 == 0 {
+        if ri % 4 == 0 {
+            let degenerate = ri % 8 == 4;
             plan.steps.push(Step {
                 req: ri,
                 thread: "w0".into(),
-                policy: Policy::Counting { k0: keys.next_u64(), k1: keys.next_u64() },
-                kinds: vec!["redeliver-later".into(), "thread-switch".into(), "std-like-keys".into()],
+                policy: if degenerate { Policy::Degenerate } else { Policy::Counting { k0: keys.next_u64(), k1: keys.next_u64() } },
+                kinds: vec!["redeliver-later".into(), "thread-switch".into(), if degenerate { "degenerate-hasher".into() } else { "std-like-keys".into() }],
             });
         }
     }
@@ -476,7 +480,9 @@ pub fn plan_session(p: &SessionParams, pool: &Pool) -> (Plan, SessionMeta) {
         let (mut plan, mut meta) = plan_session(&q, pool);
         plan.clock = Some(clock_of(p.idx));
         meta.enabled.push("clock-warp".into());
+        meta.enabled.push("stdio-full".into());
         meta.fired.insert("clock-warp".into(), plan.steps.len());
+        meta.fired.insert("stdio-full".into(), plan.steps.len());
         return (plan, meta);
     }
     let seed = derive_seed(p.root, LABEL_SESSION, p.idx);
